@@ -507,6 +507,18 @@ static void run(void)
 				apply(&acts[i]);
 			}
 		}
+	} else if (seedstate == 4 || seedstate == 5) {
+		/* two elements and TWO subscribers in the same subscriber tables (4: S subscribed first, 5: Q first) */
+		apply(&acts[0]); /* P:add(a) */
+		apply(&acts[4]); /* Q:add(ab) */
+		for (int round = 0; round < 2; round++) {
+			int who = (seedstate == 4) == (round == 0) ? S : Q;
+			for (int i = 0; i < nacts; i++) {
+				if (acts[i].kind == A_FETCH && acts[i].slot == who && acts[i].arg == R_ALL) {
+					apply(&acts[i]);
+				}
+			}
+		}
 	} else if (seedstate == 2) {
 		/* a method and a rule fetch */
 		for (int i = 0; i < nacts; i++) {
@@ -570,6 +582,6 @@ const struct driver drv_c01 = {
     .name = "c01",
     .property = "C01",
     .run = run,
-    .rule = "every sequence of actions up to the depth bound over 36 actions {add state a/ab/b and method m, remove, change by two owners (raw, websocket); fetch id 1 with rule none / startsWith a / equals b and unfetch by two subscribers; disconnect and connect of the three slots}, from 4 start states (empty; two elements + fetch-all; method + rule fetch; path-index neighbourhood filled with colliding filler paths so that insertion is refused in the tiny variant); deviation: the request frame split at its midpoint with / without a would-block; oracle after every action: per-fetch replica == reference set with latest accepted values, notification discipline, adds before the fetch response, silence after unfetch, get == model; non-trivial = executions that ran to full depth",
+    .rule = "every sequence of actions up to the depth bound over 36 actions {add state a/ab/b and method m, remove, change by two owners (raw, websocket); fetch id 1 with rule none / startsWith a / equals b and unfetch by two subscribers; disconnect and connect of the three slots}, from 6 start states (empty; two elements + fetch-all; two elements + two fetch-all subscribers in either subscription order; method + rule fetch; path-index neighbourhood filled with colliding filler paths so that insertion is refused in the tiny variant); deviation: the request frame split at its midpoint with / without a would-block; oracle after every action: per-fetch replica == reference set with latest accepted values, notification discipline, adds before the fetch response, silence after unfetch, get == model; non-trivial = executions that ran to full depth",
     .assumptions = "values are integers from a running counter|a refusal with the internal-error code is accepted for an add of a free path (configured limit) and must leave every replica unchanged",
 };
